@@ -509,9 +509,9 @@ def rule_liveness(program, ctx, prop=P, rid="C13.liveness"):
                            "unsubscribe does not purge the queue"))
 
 
-def rule_subid(program, ctx):
-    rid = ctx.rule(
-        "C13.subid",
+def rule_subid(program, ctx, prop=P, rid="C13.subid"):
+    ctx.rule(
+        rid,
         "sibling agreement: the REQ and the CLOSE branch of the connection handler derive the subscription id from message[1] by the same expression "
         "(otherwise CLOSE looks up another key than REQ registered and is a silent no-op)",
         floor=1,
@@ -527,13 +527,78 @@ def rule_subid(program, ctx):
         ctx.ok(rid, list(exprs.values())[0][0][1], f"REQ and CLOSE both use `{list(exprs)[0]}`")
     elif len(exprs) > 1:
         b = list(exprs.values())[-1][0][1]
-        ctx.bad(finding_at(P, rid, b, f"the subscription id is derived differently in different branches ({sorted(exprs)}): for ids where the two renderings differ (null, booleans, arrays) "
+        ctx.bad(finding_at(prop, rid, b, f"the subscription id is derived differently in different branches ({sorted(exprs)}): for ids where the two renderings differ (null, booleans, arrays) "
                            "CLOSE does not find the subscription REQ registered"))
     else:
-        ctx.bad(finding_func(P, rid, sc, "REQ/CLOSE no longer bind a subscription id", text="def start_client(...) :: sub_id"))
+        ctx.bad(finding_func(prop, rid, sc, "REQ/CLOSE no longer bind a subscription id", text="def start_client(...) :: sub_id"))
+
+
+def rule_typed(program, ctx, prop=P, rid="C13.typed"):
+    ctx.rule(
+        rid,
+        "guard before use (contradiction rule): inside the NostrQuery validators a client-supplied value that is type-tested with isinstance(v, str) somewhere in the function "
+        "is not operated on (len(v), v[...], v.attr, arithmetic, comparison with <,>) on a path where that test has not passed yet - such an operation raises TypeError for "
+        "numbers/null, which pydantic does not convert into a ValidationError: it escapes subscribe() and the connection handler closes the socket (no EOSE, no NOTICE)",
+        floor=1,
+    )
+    ci = program.cls("nostr_relay.storage.base:NostrQuery")
+    n = 0
+    for name, fn in ci.methods.items():
+        tested = {dotted(c.args[0]) for c in ast.walk(fn) if isinstance(c, ast.Call) and call_name(c) == "isinstance" and len(c.args) == 2 and isinstance(c.args[0], ast.Name) and "str" in ast.unparse(c.args[1])}
+        if not tested:
+            continue
+        cfg = cfg_of(fn)
+        for v in tested:
+            def gate(expr, pol, v=v):
+                return isinstance(expr, ast.Call) and call_name(expr) == "isinstance" and expr.args and dotted(expr.args[0]) == v and pol
+
+            passes = test_edges(cfg, gate)
+            n += 1
+            bad = False
+            for node in walk_no_nested(fn):
+                use = None
+                if isinstance(node, ast.Call) and call_name(node) in ("len", "int", "float", "sorted", "min", "max") and node.args and dotted(node.args[0]) == v:
+                    use = node
+                elif isinstance(node, ast.Subscript) and dotted(node.value) == v:
+                    use = node
+                elif isinstance(node, ast.Attribute) and dotted(node.value) == v:
+                    use = node
+                elif isinstance(node, ast.BinOp) and (dotted(node.left) == v or dotted(node.right) == v):
+                    use = node
+                elif isinstance(node, ast.Compare) and dotted(node.left) == v and any(isinstance(o, (ast.Lt, ast.Gt, ast.LtE, ast.GtE)) for o in node.ops):
+                    use = node
+                if use is None:
+                    continue
+                st = enclosing_stmt(use)
+                nodes = cfg.nodes_of(st)
+                if not nodes:
+                    continue
+                inline = False
+                for anc in ancestors(use):
+                    if isinstance(anc, ast.BoolOp) and isinstance(anc.op, ast.And):
+                        idx = next((i for i, x in enumerate(anc.values) if any(w is use for w in ast.walk(x))), None)
+                        if idx and any(isinstance(x, ast.Call) and call_name(x) == "isinstance" and dotted(x.args[0]) == v for x in anc.values[:idx]):
+                            inline = True
+                    if isinstance(anc, ast.stmt):
+                        break
+                if inline:
+                    continue
+                path = must_pass(cfg, passes, nodes, kinds=NORMAL)
+                if path:
+                    bad = True
+                    ctx.bad(finding_at(prop, rid, st, f"{name}: `{ast.unparse(use)[:50]}` is evaluated before `isinstance({v}, str)` has passed: a REQ filter with a number / null there raises "
+                                       "TypeError out of model_validate (not a ValidationError) - the REQ gets neither EOSE nor NOTICE and the connection is closed", text=f"{v} used before its type test"))
+            if not bad:
+                ctx.ok(rid, fn, f"{name}: `{v}` is only operated on after its isinstance(…, str) test")
+    if not n:
+        ctx.floors[rid] = 0
+        ctx.info(rid, ci.node, "no type-tested client value in the NostrQuery validators")
 
 
 def run(program, ctx):
+    from ..lib import rule_awaited
+
+    rule_awaited(program, ctx, P, ANCHORS)
     rule_subid(program, ctx)
     rule_eose(program, ctx)
     rule_total(program, ctx)
@@ -542,6 +607,11 @@ def run(program, ctx):
     rule_cancel(program, ctx)
     rule_sender(program, ctx)
     rule_liveness(program, ctx)
+    rule_typed(program, ctx)
+    from . import c05
+
+    # subscriptions live in a registry keyed by the connection's ClientID object: identity, not the (16 random bits per address) id string
+    c05.rule_registry(program, ctx, prop=P, rid="C13.registry")
     ctx.not_decided += [
         "outcomes of races between a running query task and REQ/CLOSE beyond the liveness rule",
         "bounded-exhaustive command sequences; ordering of stored events before EOSE inside the engine",
